@@ -1,5 +1,5 @@
 """property id -> clauses (rule functions) + the honest remainder.  Single source for MANIFEST.json."""
-from . import r2, r3, r4, r6, r7, r8, r9, r10
+from . import r2, r3, r4, r5check, r6, r7, r8, r9, r10
 
 
 def fam(*names):
@@ -57,7 +57,7 @@ T_R3 = "CFG dominance / guard-or-forward analysis over MIR in dev and release co
 
 PROPS = {
     "C01": {
-        "clauses": [fam("Add", "Sub"), signed("Add", "Sub"), both(r3.check_underflow_asserts), r3.check_checked_sub, r3.check_add2_carry_used, r4.check_block_loops, r4.check_block_loop_callers],
+        "clauses": [fam("Add", "Sub"), signed("Add", "Sub"), both(r3.check_underflow_asserts), r3.check_checked_sub, r3.check_add2_carry_used, r4.check_block_loops, r4.check_block_loop_callers, r5check.check_arithmetic({"Add", "Sub"}, 30)],
         "not_decided": "the scalar tail's adc/sbb arithmetic, carry propagation into the longer operand, result growth; sign/magnitude dispatch tables (planned R5)",
         "level_text": "Decides structural necessary conditions for every input: the two x86_64 block loops are well-formed carry chains (template data flow, addressing, "
         "counter = len/5, carry preserved to setc, add/sub agree) and hand (carry, done) to the scalar tail; all + and - operator forms forward with operands in order (never swapped for -), "
@@ -66,7 +66,7 @@ PROPS = {
         "technique": T_R2 + "; " + T_R3,
     },
     "C02": {
-        "clauses": [fam("Mul"), signed("Mul"), both(r3.check_underflow_asserts), r3.check_add2_carry_used, r8.check_cost],
+        "clauses": [fam("Mul"), signed("Mul"), both(r3.check_underflow_asserts), r3.check_add2_carry_used, r8.check_cost, r5check.check_arithmetic({"Mul"}, 15)],
         "not_decided": "temporary sizing, the Karatsuba/Toom-3 algebra, mac_with_carry arithmetic, the power-of-two shortcut (all value-level); rule-of-signs table (planned R5)",
         "level_text": "Decides: all Mul operator forms forward with operands in either order only because * is commutative, or are reviewed implementations; the carry-overflow "
         "assertion of mac_digit is mandatory in release builds and tests the carry returned by __add2; no call site drops a carry; the regime dispatch has a "
@@ -74,7 +74,7 @@ PROPS = {
         "technique": T_R2 + "; " + T_R3 + "; regime extraction from mac3",
     },
     "C03": {
-        "clauses": [fam("Div", "Rem"), signed("Div", "Rem"), both(r3.check_div_guards), r3.check_checked_div, r3.check_division_sites],
+        "clauses": [fam("Div", "Rem"), signed("Div", "Rem"), both(r3.check_div_guards), r3.check_checked_div, r3.check_division_sites, r5check.check_arithmetic({"Div", "Rem"}, 30), r5check.check_division_methods],
         "not_decided": "Knuth algorithm D (trial digit, add-back), normalisation shifts, single-digit loops; the sign fix-up tables of the rounding conventions (planned R5)",
         "level_text": "Decides for every input: each of the ~390 division-family functions either tests its divisor for zero with a release-mode panic before any "
         "division work or forwards the divisor to another division function; the 9 checked division functions return None on the zero edge and reach a "
@@ -121,7 +121,7 @@ PROPS = {
         "technique": "interprocedural field read-set analysis over MIR (necessity rule)",
     },
     "C10": {
-        "clauses": [_c10_forwarders, _c10_signed, _c10_folds],
+        "clauses": [_c10_forwarders, _c10_signed, _c10_folds, r5check.check_arithmetic(None, 85)],
         "not_decided": "digit splitting/padding inside the unsigned scalar leaves and the digit arithmetic of the leaf implementations",
         "level_text": "Every one of the ~1286 operator impl bodies is classified from its MIR: ~970 are proven pure forwarders (operands reach the "
         "callee in order - swapped only for commutative operators -, scalar promotions are value-preserving casts, the callee's result is the result, "
